@@ -1,62 +1,20 @@
 #!/usr/bin/env python3
-"""tools/gm_sweep.py [--per N] [--max M] [--seed S] [--kinds k1,k2] [--out DIR]      (development aid / thorough-tier control)
+"""tools/gm_sweep.py [--per N] [--max M] [--seed S] [--kinds k1,k2] [--funcs f1,f2] [--out DIR]      (development aid)
 Generates behaviour-preserving rewrites of the current /repo sources with build/gm (semantics preserving by
-construction: rename a local, swap if/else under negation, for<->while, name a condition, expand `op=`, pre-increment,
-commute ==, add braces, split declaration and initialisation), one rewrite per variant, as unified diffs under DIR
-(default: a fresh directory under /tmp, removed by the caller), stratified over (function, kind).
+construction, see tools/gm/gm.cc), one rewrite per variant, as unified diffs under DIR, stratified over (function, kind).
 Then `tools/patch_matrix.py DIR/*` shows which rule reports an alarm on code whose behaviour is unchanged."""
 import argparse
 import collections
 import json
 import os
 import random
-import subprocess
 import sys
 import tempfile
 from concurrent.futures import ThreadPoolExecutor
 
 HERE = os.path.dirname(os.path.dirname(os.path.abspath(__file__)))
-REPO = os.environ.get('GDSTK_REPO', '/repo')
-GM = os.path.join(HERE, 'build', 'gm')
-
-
-def flags(repo):
-    return ['-std=c++17', '-DNDEBUG', '-I%s/include' % repo, '-I%s/external' % repo, '-Wno-everything']
-
-
-def list_sites(unit):
-    p = subprocess.run([GM, '--list', '--root', REPO + '/src', '--root', REPO + '/include', unit, '--'] + flags(REPO), stdout=subprocess.PIPE, stderr=subprocess.PIPE, text=True)
-    out = []
-    for l in p.stdout.splitlines():
-        try:
-            j = json.loads(l)
-        except ValueError:
-            continue
-        j['unit'] = unit
-        out.append(j)
-    return out
-
-
-def make_patch(site, outdir, idx):
-    d = os.path.join(outdir, 'gm%05d-%s' % (idx, site['kind']))
-    os.makedirs(d, exist_ok=True)
-    tmp = os.path.join(d, 'new.txt')
-    p = subprocess.run([GM, '--apply', str(site['id']), '--out', tmp, '--root', REPO + '/src', '--root', REPO + '/include', site['unit'], '--'] + flags(REPO),
-                       stdout=subprocess.PIPE, stderr=subprocess.PIPE, text=True)
-    f = p.stdout.strip().splitlines()[-1] if p.stdout.strip() else None
-    if p.returncode != 0 or not f or not os.path.exists(tmp):
-        subprocess.run(['rm', '-rf', d])
-        return None
-    rel = os.path.relpath(f, REPO)
-    q = subprocess.run(['diff', '-u', '--label', 'a/' + rel, '--label', 'b/' + rel, f, tmp], stdout=subprocess.PIPE, text=True)
-    os.remove(tmp)
-    if not q.stdout.strip():
-        subprocess.run(['rm', '-rf', d])
-        return None
-    with open(os.path.join(d, 'patch.diff'), 'w') as fh:
-        fh.write(q.stdout)
-    json.dump({'kind': site['kind'], 'file': rel, 'line': site['line'], 'func': site['func']}, open(os.path.join(d, 'site.json'), 'w'))
-    return d
+sys.path.insert(0, HERE)
+from sa import gmctl, facts
 
 
 def main():
@@ -68,19 +26,9 @@ def main():
     ap.add_argument('--funcs', default='', help='comma separated substrings of qualified function names')
     ap.add_argument('--out', default=None)
     a = ap.parse_args()
-    if not os.path.exists(GM):
-        subprocess.check_call(['make', '-s', '-C', HERE, 'build/gm'])
-    units = sorted(os.path.join(REPO, 'src', f) for f in os.listdir(os.path.join(REPO, 'src')) if f.endswith('.cpp'))
-    with ThreadPoolExecutor(16) as ex:
-        allsites = [s for ss in ex.map(list_sites, units) for s in ss]
-    seen = set()
-    sites = []
-    for s in allsites:
-        k = (s['file'], s['line'], s['kind'], s['func'])
-        if k in seen:
-            continue
-        seen.add(k)
-        sites.append(s)
+    gmctl.ensure()
+    repo = facts.REPO
+    sites = gmctl.all_sites(repo)
     if a.kinds:
         sites = [s for s in sites if s['kind'] in a.kinds.split(',')]
     if a.funcs:
@@ -99,7 +47,7 @@ def main():
     out = a.out or tempfile.mkdtemp(prefix='gdstk-gm.')
     os.makedirs(out, exist_ok=True)
     with ThreadPoolExecutor(16) as ex:
-        made = [d for d in ex.map(lambda t: make_patch(t[1], out, t[0]), enumerate(pick)) if d]
+        made = [d for d in ex.map(lambda t: gmctl.make_patch(t[1], repo, out, t[0]), enumerate(pick)) if d]
     print(json.dumps({'sites_total': len(sites), 'groups': len(groups), 'picked': len(pick), 'patches': len(made), 'dir': out}))
 
 
